@@ -149,7 +149,8 @@ TFalloc == /\ IsEvent("falloc") /\ Stamp("falloc") /\ Keep
            /\ Seen
 TRead == /\ IsEvent("read") /\ Stamp("read") /\ Keep
          /\ res' = ReadOf(size[F], cell[F]) /\ UNCHANGED <<size, cell, taint>>
-         /\ RelNone(Acct) /\ KeepLad /\ UNCHANGED armed
+         \* reading through the handle flushes its buffer first (a converted uninitialized block may split its extent)
+         /\ RelGrow(F, Acct) /\ KeepLad /\ UNCHANGED armed
          /\ Seen
 \* flush / reopen of the handle / remount of the filesystem: no abstract effect.  Running out of space while
 \* flushing loses the buffered block: tainted.
